@@ -277,12 +277,15 @@ func registerBig(m *Machine) {
 	}
 	N["(*math/big.Int).Exp"] = func(m *Machine, fr *Frame, a []Value) Value {
 		x, y, mod := m.bigGet(fr, a[1]), m.bigGet(fr, a[2]), m.bigGet(fr, a[3])
-		if xc, ok := x.concrete(); ok {
-			if yc, ok := y.concrete(); ok {
-				if mc, ok := mod.concrete(); ok && mc.Sign() > 0 && mc.BitLen() <= 4096 {
-					return set(m, fr, a[0], bigFromConcrete(new(big.Int).Exp(xc, yc, mc)))
-				}
+		if m.P == nil {
+			// outside a path (package initialisation): concrete arithmetic
+			xc, ok1 := x.concrete()
+			yc, ok2 := y.concrete()
+			mc, ok3 := mod.concrete()
+			if ok1 && ok2 && ok3 && mc.Sign() > 0 {
+				return set(m, fr, a[0], bigFromConcrete(new(big.Int).Exp(xc, yc, mc)))
 			}
+			unsupported("big.Int.Exp during initialisation")
 		}
 		w := maxInt(mod.width(), 8)
 		toBytes := func(b BigInt, w int) []*Term {
@@ -293,10 +296,33 @@ func registerBig(m *Machine) {
 			}
 			return r
 		}
-		out := m.Oracle("modexp", w/8, false, [][]*Term{toBytes(x, maxInt(x.width(), 8)), toBytes(y, maxInt(y.width(), 8)), toBytes(mod, w)})
+		xb, yb, mb := toBytes(x, maxInt(maxInt(x.width(), w), 8)), toBytes(y, maxInt(maxInt(y.width(), w), 8)), toBytes(mod, w)
+		out := m.Oracle("modexp", w/8, false, [][]*Term{xb, yb, mb})
 		res := BigInt{T: catBytes(out)}
 		if m.P != nil && m.P.concrete == nil && mod.T != nil {
 			m.addPC(Ult(res.T, mod.ext(w)))
+			if g := m.P.ghost["exp-nondegenerate"]; g != nil {
+				// honest exponentiation results lie in [2, mod-2] (degenerate results have negligible probability)
+				two := ZExt(Const(8, 2), w)
+				m.addPC(And(Ule(two, res.T), Ule(res.T, BinBV(OpSub, mod.ext(w), two))))
+			}
+			if g := m.P.ghost["exp-leading-zero-bytes"]; g != nil {
+				// bound the number of leading zero bytes of exponentiation results (stated in the harness bounds)
+				k := int(m.concInt(g.(Iface).V.(*Term), "ghost"))
+				nz := FalseT
+				for i := 0; i <= k && i < len(out); i++ {
+					nz = Or(nz, Not(Eq(out[i], Const(8, 0))))
+				}
+				m.addPC(nz)
+			}
+			// (g^a)^b = (g^b)^a : for every two applications P = X^b, Q = Y^a with
+			// X = g^a' and Y = g^b' logged, a=a', b=b' => P = Q
+			app := expApp{x: xb, y: yb, m: mb, out: out}
+			for _, q := range m.P.exps {
+				m.expCommute(app, q)
+				m.expCommute(q, app)
+			}
+			m.P.exps = append(m.P.exps, app)
 		}
 		return set(m, fr, a[0], res)
 	}
@@ -326,4 +352,41 @@ func registerBig(m *Machine) {
 		return Resize(x.ext(maxInt(x.width(), 64)), 64, false)
 	}
 	N["(*math/big.Int).Uint64"] = N["(*math/big.Int).Int64"]
+}
+
+type expApp struct{ x, y, m, out []*Term }
+
+// expCommute adds: for inner apps I = (g, a, m)->i and J = (g, b, m)->j with
+// p.x == i, p.y == b, q.x == j, q.y == a  =>  p.out == q.out.
+func (m *Machine) expCommute(p, q expApp) {
+	if len(p.m) != len(q.m) {
+		return
+	}
+	for _, I := range m.P.exps {
+		for _, J := range m.P.exps {
+			if len(I.m) != len(p.m) || len(J.m) != len(p.m) || len(I.x) != len(J.x) {
+				continue
+			}
+			cond := And(bytesEqTerm(I.x, J.x), And(bytesEqTerm(I.m, J.m), And(bytesEqTerm(I.m, p.m), bytesEqTerm(p.m, q.m))))
+			cond = And(cond, eqPad(p.x, I.out))
+			cond = And(cond, eqPad(q.x, J.out))
+			cond = And(cond, eqPad(p.y, J.y))
+			cond = And(cond, eqPad(q.y, I.y))
+			if cond.IsFalse() {
+				continue
+			}
+			m.addPC(Implies(cond, bytesEqTerm(p.out, q.out)))
+		}
+	}
+}
+
+// eqPad compares two big-endian byte strings as numbers (left-padding the shorter).
+func eqPad(a, b []*Term) *Term {
+	for len(a) < len(b) {
+		a = append([]*Term{Const(8, 0)}, a...)
+	}
+	for len(b) < len(a) {
+		b = append([]*Term{Const(8, 0)}, b...)
+	}
+	return bytesEqTerm(a, b)
 }
